@@ -68,26 +68,17 @@ pub(crate) mod verif_kani_de {
         Some(if neg { -v } else { v })
     }
 
-    /// The role of inputs behind the findings `header_int_prefix_accepted` (a number followed by other bytes,
-    /// or written with an explicit '+') and `header_int_sign_only_accepted` (a sign that is not followed by a
-    /// digit): the text begins with '+', '-' or a digit.  (Used together with `ref_decimal(..).is_none()`.)
-    fn begins_like_a_number(b: &[u8]) -> bool {
-        b.len() > 0 && (b[0] == b'-' || b[0] == b'+' || is_digit(b[0]))
-    }
-
     // ----------------------------------------------------------------------------------------------
     // i32 / i64
     // ----------------------------------------------------------------------------------------------
 
-    /// every header text of N bytes over the alphabet, except the role of the two findings (not a decimal
-    /// integer, but beginning with a sign or a digit): accepted iff strict decimal, and then with the denoted
-    /// value
+    /// every header text of N bytes over the alphabet (nothing excluded): accepted iff strict decimal, and then
+    /// with the denoted value.  (Before the fix d76c398 the texts that begin with a sign or a digit without being
+    /// a decimal integer had to be excluded; they are kept as regression harnesses c02_finding_header_int_*.)
     fn int32<const N: usize>() {
         let b: [u8; N] = kani::any();
         assume_int_alphabet(&b);
         let want = ref_decimal(&b);
-        // excluded role (defects, see c02_finding_header_int_*)
-        kani::assume(want.is_some() || !begins_like_a_number(&b));
         let hv = HeaderValue::from_bytes(&b).unwrap();
         let got = <i32 as TryFromHeaderValue>::try_from_header_value(&hv);
         match (&got, want) {
@@ -105,8 +96,6 @@ pub(crate) mod verif_kani_de {
         let b: [u8; N] = kani::any();
         assume_int_alphabet(&b);
         let want = ref_decimal(&b);
-        // excluded role (defects, see c02_finding_header_int_*)
-        kani::assume(want.is_some() || !begins_like_a_number(&b));
         let hv = HeaderValue::from_bytes(&b).unwrap();
         let got = <i64 as TryFromHeaderValue>::try_from_header_value(&hv);
         match (&got, want) {
